@@ -112,6 +112,16 @@ func c17RetryHedge(rep *vk.Report, idx int) {
 		viol("retries-hedges-vs-events", fmt.Sprintf("done event reports Retries=%d Hedges=%d, listeners saw %d OnRetry and %d OnHedge", dRetries, dHedges, onRetry.Load(), onHedge.Load()))
 		return
 	}
+	// nothing in these compositions rejects an attempt or checks for cancellation between counting an attempt and
+	// invoking the function, so every attempt the counters report is an invocation that was really started (it may lag
+	// behind the completion by the scheduling latency of its goroutine: awaited, bounded)
+	for w := 0; w < 10000 && int(calls.Load()) < dAttempts; w++ {
+		time.Sleep(time.Millisecond)
+	}
+	if int(calls.Load()) != dAttempts {
+		viol("attempts-vs-invocations", fmt.Sprintf("done event reports %d attempts (none rejected), the function was invoked %d times", dAttempts, calls.Load()))
+		return
+	}
 	if dExecs > int(calls.Load()) {
 		viol("executions-count", fmt.Sprintf("done event reports %d executions but the function was entered %d times", dExecs, calls.Load()))
 		return
